@@ -1,5 +1,5 @@
 import IdspModel.Lemmas.Atan2Tab
-/-! `atani` table, chunk 3 of 10: quotient fields 24576 … 32768 (complete range, evaluated by the kernel). -/
+/-! `atani` table, chunk 3 of 8: quotient fields 24576 … 32768 (complete range, evaluated by the kernel). -/
 namespace Idsp
 
 theorem atanTab3 : atanRun 24576 8193 = true := by decide +kernel
